@@ -263,6 +263,123 @@ theorem inLayers_agree (cfg : Config) (p : Bytes)
   rw [this]
   exact Bool.eq_iff_iff.mpr (h1.trans h2.symm)
 
+/-! ### a clean path below a clean directory is a proper relative path (fix eeedaf2) -/
+
+open Lc.StateProbe in
+/-- for clean absolute paths the repaired `IsDescendant`-or-equal test is the manual's "the
+    directory or below it": `relProper` (the plain form of `ExportSrcAgree`) always holds -/
+theorem relProper_clean (dir p : Bytes) (hdc : pathClean dir = dir) (hda : isAbs dir = true)
+    (hdr : dir ≠ [SLASH]) (hpc : pathClean p = p) (hpa : isAbs p = true) : relProper dir p = true := by
+  obtain ⟨ds, hd, hdir⟩ := cleanAbs_shape _ hdc hda
+  obtain ⟨cs, hc, hp⟩ := cleanAbs_shape _ hpc hpa
+  have hne : ds ≠ [] := by
+    intro e; apply hdr; rw [hdir, e]; rfl
+  unfold relProper
+  cases hpre : hasPrefix p (dir ++ [47]) with
+  | false => rfl
+  | true =>
+    simp only [Bool.not_true, Bool.false_or]
+    obtain ⟨t, ht⟩ := (Lc.ExportPath.hasPrefix_iff _ _).mp hpre
+    have hdrop : p.drop (dir.length + 1) = t := by
+      rw [ht]
+      have : (dir ++ [47] ++ t) = (dir ++ [47]) ++ t := rfl
+      rw [this, List.drop_left' (by simp)]
+    rw [hdrop]
+    -- components
+    have hpc' := congrArg pathComps ht
+    rw [hp, pathComps_absPath cs hc, hdir, List.append_assoc] at hpc'
+    have hsl : absPath ds ++ ([47] ++ t) = absPath ds ++ SLASH :: t := rfl
+    rw [hsl, pathComps_append_sep, pathComps_absPath ds hd] at hpc'
+    cases hts : pathComps t with
+    | nil =>
+      exfalso
+      rw [hts, List.append_nil] at hpc'
+      have hlen := congrArg List.length ht
+      rw [hp, hpc', hdir] at hlen
+      simp at hlen
+    | cons e es =>
+      rw [hts] at hpc'
+      have hj : t = joinWith SLASH (e :: es) := by
+        have h2 := absPath_append ds (e :: es) hne (by simp)
+        rw [← hpc', ← hp, ht, hdir] at h2
+        have h3 : absPath ds ++ [47] ++ t = absPath ds ++ (SLASH :: t) := by simp [SLASH]
+        rw [h3] at h2
+        have := List.append_cancel_left h2
+        simpa using this
+      have he : CleanName e := hc e (by rw [hpc']; simp)
+      obtain ⟨⟨he1, he2, he3⟩, he4⟩ := he
+      rw [hj]
+      cases es with
+      | nil =>
+        have : joinWith SLASH [e] = e := rfl
+        rw [this]
+        have h47 : ¬ hasPrefix e [46, 46, 47] = true := by
+          intro h
+          obtain ⟨r, hr⟩ := (Lc.ExportPath.hasPrefix_iff _ _).mp h
+          apply he3
+          rw [hr]; simp [SLASH]
+        cases e with
+        | nil => exact absurd rfl he1
+        | cons x xs =>
+          have h1 : (x :: xs != [46]) = true := by simpa [DOT] using he2
+          have h2 : (x :: xs != [46, 46]) = true := by simpa [dotdot] using he4
+          simp [h1, h2, h47]
+      | cons f fs =>
+        rw [joinWith_cons_cons]
+        have hmem : (47 : Nat) ∈ e ++ SLASH :: joinWith SLASH (f :: fs) := by simp [SLASH]
+        have h1 : (e ++ SLASH :: joinWith SLASH (f :: fs) != [46]) = true := by
+          simp only [bne_iff_ne, ne_eq]
+          intro h; rw [h] at hmem; simp at hmem
+        have h2 : (e ++ SLASH :: joinWith SLASH (f :: fs) != [46, 46]) = true := by
+          simp only [bne_iff_ne, ne_eq]
+          intro h; rw [h] at hmem; simp at hmem
+        have h47 : ¬ hasPrefix (e ++ SLASH :: joinWith SLASH (f :: fs)) [46, 46, 47] = true := by
+          intro h
+          obtain ⟨r, hr⟩ := (Lc.ExportPath.hasPrefix_iff _ _).mp h
+          cases e with
+          | nil => exact he1 rfl
+          | cons a e1 =>
+            cases e1 with
+            | nil =>
+              simp only [List.cons_append, List.nil_append, List.cons.injEq, SLASH] at hr
+              omega
+            | cons b e2 =>
+              cases e2 with
+              | nil =>
+                simp only [List.cons_append, List.nil_append, List.cons.injEq] at hr
+                apply he4
+                rw [hr.1, hr.2.1]; rfl
+              | cons c e3 =>
+                simp only [List.cons_append, List.cons.injEq] at hr
+                apply he3
+                rw [hr.2.2.1]; simp [SLASH]
+        have hlen : 0 < e.length + ((joinWith SLASH (f :: fs)).length + 1) := by omega
+        simp [h1, h2, h47, hlen]
+
+theorem pathJoin_head_shape (a : Bytes) (rest : List Bytes) (ha : isAbs a = true) :
+    pathClean (pathJoin (a :: rest)) = pathJoin (a :: rest) ∧ isAbs (pathJoin (a :: rest)) = true := by
+  unfold pathJoin
+  cases a with
+  | nil => simp [isAbs] at ha
+  | cons x xs =>
+    simp only [List.dropWhile_cons, List.isEmpty_cons, Bool.false_eq_true, ↓reduceIte]
+    refine ⟨pathClean_idem _, isAbs_pathClean_of_isAbs _ ?_⟩
+    cases rest with
+    | nil => exact ha
+    | cons y ys => exact isAbs_append _ _ ha
+
+open Lc.StateProbe Lc.Spec.World in
+/-- **`ExportSrcAgree` needs no hypothesis any more** (fix eeedaf2): with an absolute
+    `Layerdirs` and a build directory other than "/", the repaired `IsDescendant`-or-equal
+    test and the manual's "the build directory or below it" agree on every export source. -/
+theorem exportSrcAgree_clean (i : Inst) (n : Bytes) (e : Layerfile.NeededMount)
+    (hla : isAbs i.cfg.layerdirs = true) (hbd : buildDir i n ≠ [47]) : ExportSrcAgree i n e := by
+  have hld := pathJoin_head_shape i.cfg.layerdirs [n] hla
+  have hbdc := pathJoin_head_shape (layerDir i n) [i.cfg.buildRoot] hld.2
+  have hsrc := pathJoin_head_shape (layerDir i n) [i.cfg.buildRoot, e.source] hld.2
+  rw [export_src_agree_iff i n e hbd]
+  exact relProper_clean _ _ hbdc.1 hbdc.2 hbd hsrc.1 hsrc.2
+
 /-! ### expanded import sources are clean absolute paths -/
 
 open Lc.StateProbe Lc.Layerfile Lc.Spec.World in
